@@ -704,10 +704,89 @@ def _anchors():
     return _ANCHORS
 
 
+_ANCHOR_ADTS = None
+
+
+def _anchor_adts():
+    global _ANCHOR_ADTS
+    if _ANCHOR_ADTS is None:
+        import os
+        p = os.path.join(os.path.dirname(os.path.dirname(os.path.abspath(__file__))), "anchors_adts.json")
+        try:
+            _ANCHOR_ADTS = json.load(open(p))
+        except Exception:
+            _ANCHOR_ADTS = {}
+    return _ANCHOR_ADTS
+
+
+def _field_aliases(j):
+    """{(adt path, new field name): old field name} for fields of the library's own types that were renamed since the
+    reviewed tree (anchors_adts.json): the old name is gone and exactly one new field of the same variant has its type,
+    or the variant has the same field types in the same order (tuple struct <-> named fields)"""
+    table = _anchor_adts()
+    out = {}
+    cur = {a["path"]: a for a in j.get("adts", [])}
+    by_last = defaultdict(list)
+    for pth in cur:
+        by_last[pth.split("::")[-1]].append(pth)
+    for path, variants in table.items():
+        a = cur.get(path)
+        if a is None:
+            c = by_last.get(path.split("::")[-1], [])
+            a = cur[c[0]] if len(c) == 1 else None
+        if a is None:
+            continue
+        for vi, (vname, ofields) in enumerate(variants):
+            nv = [v for v in a["variants"] if v["name"] == vname]
+            if len(nv) != 1:
+                continue
+            nfields = [(f["name"], f["ty"]) for f in nv[0]["fields"]]
+            onames = {n for n, _ in ofields}
+            nnames = {n for n, _ in nfields}
+            missing = [(n, t) for n, t in ofields if n not in nnames]
+            extra = [(n, t) for n, t in nfields if n not in onames]
+            if not missing or not extra:
+                continue
+            if len(ofields) == len(nfields) and [t for _, t in ofields] == [t for _, t in nfields]:
+                for (on, _), (nn, _) in zip(ofields, nfields):
+                    if on != nn:
+                        out[(a["path"], nn)] = on
+                continue
+            for on, ot in missing:
+                c = [nn for nn, nt in extra if nt == ot]
+                if len(c) == 1 and sum(1 for n2, t2 in missing if t2 == ot) == 1:
+                    out[(a["path"], c[0])] = on
+    return out
+
+
+def _rename_fields(x, ren):
+    if isinstance(x, dict):
+        if "f" in x and "adt" in x and (x["adt"], x["f"]) in ren:
+            x["f"] = ren[(x["adt"], x["f"])]
+        for v in x.values():
+            _rename_fields(v, ren)
+    elif isinstance(x, list):
+        for v in x:
+            _rename_fields(v, ren)
+
+
 class Crate:
     def __init__(self, j, strip_prefix=None, use_anchors=True):
         if strip_prefix:
             j = json.loads(json.dumps(j).replace(strip_prefix, ""))
+        self.field_aliases = {}
+        if use_anchors and j.get("crate") == "slotted_egraphs":
+            ren = _field_aliases(j)
+            if ren:
+                # rules address fields by the names of the reviewed tree
+                j = json.loads(json.dumps(j))
+                _rename_fields(j["bodies"], ren)
+                for a in j["adts"]:
+                    for v in a["variants"]:
+                        for f in v["fields"]:
+                            if (a["path"], f["name"]) in ren:
+                                f["name"] = ren[(a["path"], f["name"])]
+                self.field_aliases = {"%s.%s" % k: v for k, v in ren.items()}
         self.j = j
         self.name = j["crate"]
         self.features = j["features"]
@@ -762,6 +841,8 @@ class Crate:
             if len(cands) == 1:
                 self.by_name[n].append(cands[0])
                 self.aliases[cands[0].id] = n
+                cands[0].real_name = cands[0].name
+                cands[0].name = n            # rules (and their name tables) see the name of the reviewed tree
         if self.aliases:
             # call sites of a renamed function are seen under the old name as well
             for b in self.bodies.values():
@@ -1377,7 +1458,13 @@ def default_inline_policy(crate):
         # tiny private accessors (`fn best(&self, id) -> &T { &self.map[&id] }`) are looked through wherever they are called
         live = [bl for bl in f.blocks if not bl["cleanup"]]
         accessor = not any(bl["term"]["k"] == "switch" for bl in live) and sum(1 for bl in live if bl["term"]["k"] == "call") <= 1 and f.argc <= 4 and not any(f.local_ty(l).startswith("&mut") for l in range(1, f.argc + 1))
-        if n != 1 and not accessor:
+        # a function that does not exist in the reviewed tree (anchors.json) and is not a renamed old one: duplicated code merged
+        # behind a new small helper.  No rule can refer to it by name, so it is looked through at every call site.
+        new_helper = False
+        if n != 1 and not accessor and getattr(crate, "aliases", None) is not None and (f.file or "").startswith("src/") and f.name:
+            tab = _anchors()
+            new_helper = bool(tab) and (f.file + "::" + f.name) not in tab and fid not in crate.aliases and len(live) <= 40
+        if n != 1 and not accessor and not new_helper:
             continue
         if any(c.callee and c.callee.target == fid for c in f.all_calls()):
             continue
